@@ -200,6 +200,20 @@ static void upipe_ts_decaps_input(struct upipe *upipe, struct uref *uref,
         discontinuity = true;
     }
 
+    if (unlikely(!has_payload)) {
+        /* The counter is not incremented by packets without payload
+         * (ISO/IEC 13818-1 2.4.3.3), and this one is not the last value:
+         * packets were lost, signal it on the next payload. */
+        if (!discontinuity) {
+            int lost = (0x10 + cc - upipe_ts_decaps->last_cc) & 0xf;
+            upipe_ts_decaps->lost += lost;
+            upipe_warn_va(upipe, "potentially lost %d packets", lost);
+        }
+        upipe_ts_decaps->last_cc = -1;
+        uref_free(uref);
+        return;
+    }
+
     if (unlikely(!discontinuity &&
                  ts_check_discontinuity(cc, upipe_ts_decaps->last_cc))) {
         int lost = (0x10 + cc - upipe_ts_decaps->last_cc - 1) & 0xf;
@@ -208,11 +222,6 @@ static void upipe_ts_decaps_input(struct upipe *upipe, struct uref *uref,
         discontinuity = true;
     }
     upipe_ts_decaps->last_cc = cc;
-
-    if (unlikely(!has_payload)) {
-        uref_free(uref);
-        return;
-    }
 
     if (unlikely(discontinuity))
         uref_flow_set_discontinuity(uref);
